@@ -67,6 +67,9 @@ def ladder():
         }
         for k, t in shapes.items():
             out.append({"id": f"wide_{k}_{n}", "text": t, "depth": n, "kind": "ladder_wide_" + k})
+    # the fluent builder's sum() over many variables (no source text: the child builds the model itself)
+    for n in (100, 1000, 5000):
+        out.append({"id": f"wide_buildersum_{n}", "text": f"(builder) min sum(x_0 .. x_{n - 1}) s.t. x_0 >= 1", "depth": n, "kind": "ladder_wide_buildersum", "builder_sum": n})
     # flat operator chains within the 4 KiB of the property, on a thread with the default stack of a spawned
     # Rust thread (2 MiB) instead of the main thread of the child process
     for n in (200, 1000, 2000):
